@@ -34,7 +34,8 @@ pub fn alphabet(name: &str) -> Vec<f64> {
         "ulp" => vec![1. - p(-53), 1., 1. + p(-52), 1. + p(-51)],
         "den" => vec![0., 5e-324, 1e-310, -1e-310, 2.3e-308],
         "huge" => vec![1e150, -1e150, 1., 1e-150],
-        "ext" => vec![f64::NEG_INFINITY, -1., -0.0, 0.0, 5e-324, 1., f64::INFINITY, f64::NAN],
+        "ext" => vec![f64::NEG_INFINITY, -1., -0.0, 0.0, 5e-324, 1., f64::INFINITY, f64::NAN, -f64::NAN],
+        "extnan" => vec![-1., f64::NAN, 1., -f64::NAN, f64::INFINITY],
         "edge" => vec![f64::NEG_INFINITY, -1., -0.0, 0., 0.5, 1., 2., f64::INFINITY, f64::NAN],
         "qties" => vec![0., 1., 2., 3.],
         "qdist" => vec![-4., 0., 1., 2.5, 3., 7.],
@@ -42,6 +43,9 @@ pub fn alphabet(name: &str) -> Vec<f64> {
         // well-conditioned data at very small / very large scale (scale invariance)
         "tiny" => vec![1e-9, 2e-9, 3e-9, 7e-9, -7e-9, 1e-11],
         "large" => vec![1e20, 2e20, 3e20, 7e20, -7e20, 1e18],
+        // the small end of the stated value domain (|x| >= 1e-30)
+        "tiny20" => vec![1e-20, 3e-20, -2e-20, 7e-21, 1e-30],
+        "large25" => vec![1e25, 3e25, -2e25, 7e24, 1e30],
         "q07" => vec![-1., 0., 0.5, 2., 7.],
         // finite values near the overflow threshold (sums of two overflow, the values do not)
         "q07huge" => vec![-1.7e308, -1.2e308, 0.5, 1e308, 1.5e308],
